@@ -127,11 +127,15 @@ async<void> resolver_await(Env &e, int j) { co_await e.proms[j](e.val[j]); }
 void resolve(Env &e, int j) {
     if (!e.resolved[j]) {
         e.resolved[j] = true;
-        if (e.rmode == 0) e.proms[j](e.val[j]);       // discarded suspend point: a body waiting for it is resumed right here
+        if (e.rmode == 0 || e.rmode == 3) e.proms[j](e.val[j]);       // discarded suspend point: a body waiting for it is resumed right here
         else if (e.rmode == 1) resolver_discard(e, j).detach();
         else resolver_await(e, j).detach();
     }
 }
+
+// rmode 3: the pending future a synchronous read runs into is resolved by ANOTHER THREAD while the reader is blocked
+Env *hook_e; int hook_j;
+void hook_resolve() { resolve(*hook_e, hook_j); }
 
 template<typename Fn> void observe(Obs &o, Fn &&fn) {
     try { o.val = fn(); o.type = O_VALUE; }
@@ -185,7 +189,7 @@ template<typename G, typename Mk> void run(Mk &&make) {
     long base = vf_live_allocs();
     {
         Env e;
-        e.rmode = vf_choice(3);
+        e.rmode = vf_choice(4);
         e.n = vf_choice(MAXS + 1);
         for (int i = 0; i < e.n; ++i) {
             e.kind[i] = vf_choice(K_NKINDS);
@@ -238,11 +242,13 @@ template<typename G, typename Mk> void run(Mk &&make) {
                 Obs got;
                 switch (style) {
                 case S_NEXT: {
-                    for (int k = 0; k < npend; ++k) resolve(e, pend[k]);
+                    if (e.rmode == 3 && npend == 1) { hook_e = &e; hook_j = pend[0]; vf_wait_arm(&hook_resolve); }
+                    else for (int k = 0; k < npend; ++k) resolve(e, pend[k]);
                     bool has;
                     if constexpr (with_arg) has = g.next(arg); else has = g.next();
                     if (has) observe(got, [&]() -> int { return g.value(); });
                     else got.type = O_END;
+                    vf_wait_done();         // (natively: join the helper thread only after the value was read)
                     break;
                 }
                 case S_ITER:
